@@ -18,3 +18,7 @@ chk('C15', 'proof',
     'Transition contracts of EpisodeWrapper, AutoResetWrapper, EvalWrapper, actor_step and generate_unroll are proved over a havoc environment (arbitrary outputs per member and sub-step) with a SYMBOLIC episode_length, together with the inductive invariant of the wrapped state; this covers every termination pattern and history by induction, beyond the enumerated schedules of the property text.',
     'action_repeat in {1,2,3}, batch in {1,2}; "exactly episode_length" is read with the proviso action_repeat | episode_length (otherwise the first multiple >= L); acting.py definitions are extracted by ast (module import block dropped); Evaluator metric wiring is a concrete check with np.mean/np.std trusted',
     'contract-based deductive verification: transition contracts + inductive invariant over a havoc callee (contract true), VCs from the jaxprs of the real wrappers, z3', '7 C15')
+chk('C11', 'proof',
+    'actuator.to_tau is proved equal to the reference actuator model for every actuator-to-dof index map with nu <= 3, nv <= 4 (several actuators per dof, unactuated dofs exactly 0, q_id != qd_id) and for ALL real controls, states, gains, gears, biases and (finite or infinite) ranges; monotonicity and saturation are proved relationally on the real code.',
+    'proof is over actuator tables; the MJCF->table mapping in load_model is not proved; reference model transcribed from MuJoCo documentation; floats as reals',
+    'contract-based deductive verification: VCs from the jaxpr of to_tau per index map, z3 with an abstraction ladder (min/max as commutative UFs, then exact)', '7 C11')
